@@ -11,7 +11,9 @@ import Hgxv.Model.C20Cent
   `snaps`                           -> `<times> <nodes per snapshot> <edges per snapshot>`
   `tse <cent> s` / `tsn <cent>`     -> averaged versions
   `eload n <edges>`                 -> `ok`            uniform hypergraph on `0..n-1`
-  `apply <x>` / `W` / `cecstep <x> <c>` / `hecnorm <r>` -/
+  `apply <x>` / `W` / `cecstep <x> <c>` / `hecnorm <r>`
+  `pmcount maxIter tol <res table>`   -> number of passes of the `power_method` loop when pass `j` computes residual `table[j]`
+  `heccount maxIter tol <dist table>` -> `<passes> <1|0>` of the HEC loop when pass `j` measures the distance `table[j]` -/
 open Wire C20
 
 structure St where
@@ -86,6 +88,18 @@ def step (s : St) : List String → St × String
     match rats? r with
     | some r => (s, if l1 r = 0 then "rej" else showRats (hecNormalize r))
     | none => (s, "bad-op")
+  | ["pmcount", mi, tol, tab] =>
+    match nat? mi, rat? tol, rats? tab with
+    | some mi, some tol, some tab =>
+      -- the state is the pass index; pass `j` yields the recorded residual (beyond the table: 0, i.e. it stops)
+      (s, toString (pmLoop (fun (j : Nat) => (j + 1, tab.getD j 0)) tol mi none 0).2)
+    | _, _, _ => (s, "bad-op")
+  | ["heccount", mi, tol, tab] =>
+    match nat? mi, rat? tol, rats? tab with
+    | some mi, some tol, some tab =>
+      let r := hecLoop (fun (j : Nat) => j + 1) (fun j _ => tab.getD j 0) tol mi 0
+      (s, toString r.2.1 ++ " " ++ showBool r.2.2)
+    | _, _, _ => (s, "bad-op")
   | _ => (s, "bad-op")
 
 def main : IO Unit := Wire.run step {}
